@@ -110,7 +110,7 @@ def rule_high_vote(ctx):
                 t = T.rvalue(s["r"])
                 okw = okw or (any(x[0] == "call" and x[1].endswith("Signers::weight") for x in (t[2], t[3])) and any(has_call(x, "Entry::or_default") for x in (t[2], t[3])))
     ctx.ob(R, "tallied quantity", okw, "*count.entry(header).or_default() += signers.weight(schedule)" if okw else "the tally does not add Signers::weight of the entry's signer set", f.loc())
-    head = loop_head(ctx, f)
+    head = loop_head(ctx, f, target=[c["bb"] for c, _ in entries]) if entries else None
 
     def is_hvf(t):
         return chain(t)[1][-1:] == ["high_vote"]
